@@ -157,7 +157,10 @@ class Delimited(OneOf):
             if not match:
                 if seeking_delimiter and self.optional_delimiter:
                     # Failed to match a delimiter, but it's optional, so loop again.
+                    # NOTE: Forget any delimiter matched on an earlier loop. It's
+                    # already part of the working match and must not be added again.
                     seeking_delimiter = False
+                    delimiter_match = None
                     continue
                 else:
                     # Failed to match next element, stop here.
